@@ -13,9 +13,13 @@
 #endif
 void vp_c02_pick(char *out, char *tab, uint32_t stride, uint32_t n, uint32_t idx) {
   ASSUME(idx < n); ASSERT(stride <= QS_CAP && n <= 40, "C02 env: name table too large");
-  QAD *d = qs_new(0, stride);
-  for (uint32_t k = 0; k < n; k++) { if (k == idx) { uint32_t l = 0; for (; l < stride; l++) { uint8_t c = ((uint8_t*)tab)[k * stride + l]; if (!c) break; SD(d)[l] = c; } d->f1 = l; } }
-  qs_seal(d, 0); *(QAD**)out = d; }
+  QAD *d = qs_new(0, stride); struct qs *q = (struct qs*)d;
+  /* every candidate row is written on its own guarded path with CONSTANT content, so length, characters and the content id (sid) of the
+     block are if-then-else terms over constants. The rows are 8-bit literals of the translated harness, i.e. they take part in the
+     driver's offline injectivity check of the id hash (report.json literals16), which is what `exact` asserts. */
+  for (uint32_t k = 0; k < n; k++) { if (k == idx) { uint32_t l = 0; for (; l < stride; l++) { uint8_t c = ((uint8_t*)tab)[k * stride + l]; if (!c) break; q->data[l] = c; }
+      d->f1 = l; q->lit = 1; q->exact = 1; q->sid = l <= 3 ? SID_PACK(q->data, l) : vpl_hash16(q->data, l); } }
+  *(QAD**)out = d; }
 /* kind 0: free text, 1: abstract number, 2: row of the table (only if n > 0) */
 void vp_c02_value(char *out, char *tab, uint32_t stride, uint32_t n) {
   uint8_t kind = vp_u8(); uint32_t len = vp_u32(); uint64_t mag = vp_u64(); uint8_t neg = vp_bool(); uint32_t idx = vp_u32();
@@ -125,3 +129,18 @@ C02_SSD(38)
 C02_SSD(39)
 // MODEL: _ZN5QXmpp7Private16StaticStringDataILm40EEC2ERA40_KDs
 C02_SSD(40)
+/* operator==(QStringView, QStringView) / operator!= (inline in qstringview.h, all comparisons of the parsers end here): same result as
+   the inline code (size check + QtPrivate::equalStrings of models/qt_core.c) with a fast path: a model block carrying a valid content id
+   against LITERAL data (non-block pointer at the start of a constant: same criterion as VIEW_LIT of qt_core.c) compares ids; the id of the
+   literal is computed in place and folds to a constant. */
+static int c02_veq(uint64_t na, const uint16_t *a, uint64_t nb, const uint16_t *b) {
+  if (na != nb) return 0;   /* abstract numbers / base64 tags are 1-unit placeholders and only equal each other */
+  /* `whole view` (block length == view length) is left to the solver as a model obligation: symex cannot fold it for a symbolic length
+     (zero- vs sign-extended copies of the same field), and exploring the unit-by-unit fallback is exactly the cost to avoid */
+  if (!VP_IS_QS(b) && VP_LITSTART(b) && VP_IS_QS(a) && QSBLK(a)->exact) { ASSERT(QSBLK(a)->h.f1 == na, "C02 env: partial view of a literal-derived block compared");
+    return VIEW_SID(a, na) == (nb <= 3 ? SID_PACK(b, nb) : vpl_hash16(b, (uint32_t)nb)); }
+  if (!VP_IS_QS(a) && VP_LITSTART(a) && VP_IS_QS(b) && QSBLK(b)->exact) { ASSERT(QSBLK(b)->h.f1 == nb, "C02 env: partial view of a literal-derived block compared");
+    return VIEW_SID(b, nb) == (na <= 3 ? SID_PACK(a, na) : vpl_hash16(a, (uint32_t)na)); }
+  return view_eq(na, a, nb, b); }
+uint8_t _Zeq11QStringViewS_(uint64_t na, char *a, uint64_t nb, char *b) { return c02_veq(na, (const uint16_t*)a, nb, (const uint16_t*)b); }
+uint8_t _Zne11QStringViewS_(uint64_t na, char *a, uint64_t nb, char *b) { return !c02_veq(na, (const uint16_t*)a, nb, (const uint16_t*)b); }
